@@ -1097,7 +1097,7 @@ func TestVerifC05(t *testing.T) {
 	defer func() { smtpPort = saved }()
 	prng := vh.NewRng(vh.Seed() + 77)
 	for try := 0; ; try++ {
-		p := 20000 + prng.Intn(40000)
+		p := 10500 + prng.Intn(21000) // below the ephemeral range: no clash with client ports
 		ok := true
 		for ip := 1; ip <= 3 && ok; ip++ {
 			for _, a := range []string{fmt.Sprintf("127.0.0.%d:%d", ip, p), fmt.Sprintf("127.0.0.%d:%d", 10+ip, p)} {
